@@ -19,7 +19,7 @@ use vh::simrun::*;
 fn main() {
     let args = Args::parse();
     let mut sh = Shard::new("C12", &args);
-    std::panic::set_hook(Box::new(|_| {}));
+    vh::shard::quiet_panics();
     let n = args.cases(2_400, 240_000);
     for i in 0..n {
         let case = args.case_id(i);
@@ -72,10 +72,10 @@ fn main() {
         sh.max("image_bytes", image.len() as u64);
         let chunk = if rng.bool() { 4 } else { 8 };
         sh.count(&format!("chunk.{chunk}"));
-        parse_checks(&mut sh, case, &d, &image, chunk);
-        raw_checks(&mut sh, case, &mut rng, &image, chunk);
+        sh.guard_case(case, |sh| parse_checks(sh, case, &d, &image, chunk));
+        sh.guard_case(case, |sh| raw_checks(sh, case, &mut rng, &image, chunk));
         if rng.chance(1, 16) {
-            e2e_checks(&mut sh, case, &mut rng, &d, &image);
+            sh.guard_case(case, |sh| e2e_checks(sh, case, &mut rng, &d, &image));
         }
         if sh.wants_sample() && d.pdos.len() > 1 {
             sh.sample(json!({"case": case, "strings": d.strings.len(), "sms": d.sms.len(), "pdos": d.pdos.len(), "fmmus": d.fmmus, "image_len": image.len(), "image_head": hex(&image[..64.min(image.len())])}));
